@@ -710,6 +710,10 @@ class BaseTransform:
          [  0.   0. 120.]
          [  0.   0. 135.]]
         """
+        # n angles about a single axis: recent scipy versions only accept the
+        # shape (n,1) for this (older ones also (n,))
+        if isinstance(seq, str) and len(seq) == 1 and np.ndim(angle) == 1:
+            angle = np.reshape(angle, (-1, 1))
         rot = R.from_euler(seq, angle, degrees=degrees)
         return self.rotate(rot, anchor=anchor, start=start)
 
